@@ -605,6 +605,7 @@ type c38State struct {
 	items  []casstore.Item
 	delOK  map[string]bool   // container -> its last command was a DEL that returned nil
 	prov   map[string]string // "handle|ip" -> which command execution allocated it
+	faulty int               // commands of the history that ran with an injected fault
 	parent *c38State
 	ev     string
 	depth  int
@@ -626,7 +627,7 @@ func (s *c38State) key() string {
 		}
 	}
 	sort.Strings(ks)
-	return c38Canon(s.items) + "delOK=" + strings.Join(ks, ",")
+	return c38Canon(s.items) + "delOK=" + strings.Join(ks, ",") + " faulty=" + strconv.Itoa(s.faulty)
 }
 
 type c38Fail struct {
@@ -641,13 +642,16 @@ func c38Outcome(err error) string {
 }
 
 // c38Step applies the oracle to one executed command and builds the successor state.
-func c38Step(sc *c38Scenario, s *c38State, r *c38Run) (*c38State, []c38Fail, string) {
+func c38Step(sc *c38Scenario, s *c38State, r *c38Run, limitFaulty bool) (*c38State, []c38Fail, string) {
 	var fails []c38Fail
 	c := r.Cmd.C
 	allocs := c38Allocs(r.Items)
 	cid, wid := sc.cidHandle(c), sc.widHandle(c)
 	fc := r.faultClass()
-	n := &c38State{items: r.Items, delOK: map[string]bool{}, prov: map[string]string{}, parent: s, ev: r.label(), depth: s.depth + 1}
+	n := &c38State{items: r.Items, delOK: map[string]bool{}, prov: map[string]string{}, parent: s, ev: r.label(), depth: s.depth + 1, faulty: s.faulty}
+	if r.nFaults() > 0 && limitFaulty {
+		n.faulty++
+	}
 	for k, v := range s.delOK {
 		n.delOK[k] = v
 	}
@@ -726,7 +730,8 @@ func c38Step(sc *c38Scenario, s *c38State, r *c38Run) (*c38State, []c38Fail, str
 
 type c38Params struct {
 	Depth     int
-	MaxFaults int
+	MaxFaults int // per command
+	MaxFaulty int // commands with faults per history (0: no limit)
 	WithX     bool
 	Cmds      []c38Cmd
 	Workers   int
@@ -767,8 +772,12 @@ func c38Explore(c *vk.Ctx, sc *c38Scenario, init []casstore.Item, p c38Params, l
 					var res []succ
 					for _, cmd := range p.Cmds {
 						var runs []*c38Run
+						mf := p.MaxFaults
+						if p.MaxFaulty > 0 && s.faulty >= p.MaxFaulty {
+							mf = 0
+						}
 						for rep := 0; rep < reps; rep++ {
-							runs = append(runs, c38Enumerate(sc, s.items, cmd, p.MaxFaults, lock, p.WithX)...)
+							runs = append(runs, c38Enumerate(sc, s.items, cmd, mf, lock, p.WithX)...)
 						}
 						atomic.AddInt64(&trans, int64(len(runs)))
 						for _, r := range runs {
@@ -781,7 +790,7 @@ func c38Explore(c *vk.Ctx, sc *c38Scenario, init []casstore.Item, p c38Params, l
 								c.Violation("C38:panic:"+r.Cmd.Op+":"+r.faultClass(), map[string]any{"scenario": sc.Name, "history": hist, "panic": r.Panic})
 								continue
 							}
-							n, fails, out := c38Step(sc, s, r)
+							n, fails, out := c38Step(sc, s, r, p.MaxFaulty > 0)
 							for _, f := range fails {
 								c.Violation(f.Key, map[string]any{"scenario": sc.Name, "history": hist, "msg": f.Msg, "last_command_trace": r.Points})
 							}
@@ -895,7 +904,7 @@ func TestVerif_C38(t *testing.T) {
 						c.Violation("C38:panic:"+r.Cmd.Op+":"+r.faultClass(), map[string]any{"scenario": sc.Name, "history": d.History, "panic": r.Panic})
 						return
 					}
-					n, fails, out := c38Step(sc, s, r)
+					n, fails, out := c38Step(sc, s, r, false)
 					for _, f := range fails {
 						c.Violation(f.Key, map[string]any{"scenario": sc.Name, "history": d.History, "msg": f.Msg})
 					}
@@ -933,6 +942,15 @@ func TestVerif_C38(t *testing.T) {
 		for i := range scs {
 			sc := &scs[i]
 			p.Depth = c.Pick(sc.QDepth, sc.TDepth)
+			if v := os.Getenv("C38_ONLY"); v != "" && v != sc.Name {
+				continue
+			}
+			if v, err := strconv.Atoi(os.Getenv("C38_DEPTH")); err == nil {
+				p.Depth = v
+			}
+			if v, err := strconv.Atoi(os.Getenv("C38_FCMDS")); err == nil {
+				p.MaxFaulty = v
+			}
 			if p.Depth == 0 {
 				continue
 			}
@@ -949,7 +967,7 @@ func TestVerif_C38(t *testing.T) {
 			st, tr := c38Explore(c, sc, items, p, locks, reps)
 			totalS += st
 			totalT += tr
-			info("enum %-18s depth<=%d faults/cmd<=%d states=%d executions=%d", sc.Name, p.Depth, p.MaxFaults, st, tr)
+			info("enum %-18s depth<=%d faults/cmd<=%d faulty-cmds<=%d states=%d executions=%d", sc.Name, p.Depth, p.MaxFaults, p.MaxFaulty, st, tr)
 			if c.Expired() {
 				break
 			}
